@@ -257,12 +257,15 @@ Definition fz_dep (z : frozen) : option bool :=
 
 (** State of a StringSourceWithCachedFrozen: cached as_file path of the UNFROZEN contents object,
     the [_is_frozen] flag, and [_FreezingStringSourceContents._contents]. *)
-Record cstate := CState { c_path : option raw; c_isfz : bool; c_fz : option frozen }.
-Definition cs0 : cstate := CState None false None.
+Record cstate := CState { c_path : option raw; c_isfz : bool; c_fz : option frozen; c_runs : nat }.
+    (* [c_runs]: how many times the program of a program source has been run so far (a program may print something
+       different each time; other nodes leave it 0) *)
+Definition cs0 : cstate := CState None false None 0.
 
-Definition cs_set_path (st : cstate) (r : raw) : cstate := CState (Some r) (c_isfz st) (c_fz st).
-Definition cs_set_fz (st : cstate) (z : frozen) : cstate := CState (c_path st) (c_isfz st) (Some z).
-Definition cs_freeze (st : cstate) : cstate := if c_isfz st then st else CState (c_path st) true (c_fz st).
+Definition cs_set_path (st : cstate) (r : raw) : cstate := CState (Some r) (c_isfz st) (c_fz st) (c_runs st).
+Definition cs_set_fz (st : cstate) (z : frozen) : cstate := CState (c_path st) (c_isfz st) (Some z) (c_runs st).
+Definition cs_freeze (st : cstate) : cstate := if c_isfz st then st else CState (c_path st) true (c_fz st) (c_runs st).
+Definition cs_ran (st : cstate) : cstate := CState (c_path st) (c_isfz st) (c_fz st) (S (c_runs st)).
 
 Definition fz_write (z : frozen) : option (list wev) :=
   match z with
@@ -283,10 +286,10 @@ Inductive src :=
     (* string literal / here-document: StringSourceWConstantContents(ContentsOfStr) *)
 | SFile (r : raw)
     (* -contents-of FILE: StringSourceOfFile(StringSourceContentsOfExistingPath) *)
-| SProg (k : pkind) (g : raw -> raw) (st : cstate) (ins : list src)
+| SProg (k : pkind) (g : nat -> raw -> raw) (st : cstate) (ins : list src)
     (* -stdout-from / -stderr-from [-ignore-exit-code] PROGRAM [-stdin ...]: StringSourceWithCachedFrozen over
        ContentsViaWriteTo(exit_relevant.StdoutWriter | exit_ignored.StdoutWriter | exit_ignored.StderrWriter) or
-       ContentsViaFile(exit_relevant.StderrFileCreator).  [g] maps the bytes on stdin to the captured output;
+       ContentsViaFile(exit_relevant.StderrFileCreator).  [g n] maps the bytes on stdin to the output captured from the n-th run (n = 0, 1, ...) of the program;
        [ins] are the stdin parts (as_stdin.of_sequence). *)
 | SLines (f : lfun) (dep : bool) (path : option raw) (isfz : bool) (u : src)
     (* TransformedStringSourceFromLines: identity, char-case, replace, strip ... *)
@@ -359,10 +362,11 @@ Definition stdin_with (sf : src -> option fobs * src) (sw : src -> option (list 
 (** Unfrozen [write_to] of a program source without cached file, given the bytes on stdin ([None] = preparing
     stdin raised): ContentsViaWriteTo lets the child write to the descriptor; ContentsViaFile creates (and
     caches) its file and copies its lines. *)
-Definition prog_write_of (k : pkind) (g : raw -> raw) (st : cstate) (o : option raw) : option (list wev) * cstate :=
-  match option_map g o with
+Definition prog_write_of (k : pkind) (g : nat -> raw -> raw) (st : cstate) (o : option raw) : option (list wev) * cstate :=
+  match option_map (g (c_runs st)) o with
   | None => (None, st)
   | Some out =>
+      let st := cs_ran st in
       match k with
       | PFd => (Some [WFd out], st)
       | PFile => (Some [WLines (file_lines out)], cs_set_path st out)
@@ -442,8 +446,8 @@ Fixpoint s_lines (b : N) (x : src) {struct x} : option (list text) * src :=
            | Some r => (Some (file_lines r), x)
            | None =>
                let (o, ins') := stdin_with (s_file b) (s_write b) ins in
-               match option_map g o with                         (* the program writes its output to a new file *)
-               | Some r => (Some (file_lines r), SProg k g (cs_set_path st r) ins')
+               match option_map (g (c_runs st)) o with           (* the program writes its output to a new file *)
+               | Some r => (Some (file_lines r), SProg k g (cs_set_path (cs_ran st) r) ins')
                | None => (None, SProg k g st ins')
                end
            end
@@ -513,8 +517,8 @@ with s_file (b : N) (x : src) {struct x} : option fobs * src :=
            | Some r => (Some (FText r), x)
            | None =>
                let (o, ins') := stdin_with (s_file b) (s_write b) ins in
-               match option_map g o with                         (* the program writes its output to a new file *)
-               | Some r => (Some (FText r), SProg k g (cs_set_path st r) ins')
+               match option_map (g (c_runs st)) o with           (* the program writes its output to a new file *)
+               | Some r => (Some (FText r), SProg k g (cs_set_path (cs_ran st) r) ins')
                | None => (None, SProg k g st ins')
                end
            end
@@ -783,13 +787,15 @@ Fixpoint s_freeze (x : src) : src :=
   end.
 
 (** ** Access sequences *)
-Inductive access := AStr | ALines | AFile | ADep | AFreeze.
+Inductive access := AStr | ALines | AFile | ADep | AFreeze | AWrite.
+    (* AWrite: contents().write_to(a new text file), the file is then read *)
 
 Inductive obs :=
 | OStr (s : text)
 | OLines (ls : list text)
 | OFile (f : fobs)
 | ODep (d : bool)
+| OWritten (f : fobs)
 | OFrozen
 | OExc.                      (* the access raised (UnicodeDecodeError) *)
 
@@ -803,6 +809,7 @@ Definition step (b : N) (a : access) (x : src) : obs * src :=
   | AFile => let (r, x') := s_file b x in (oobs OFile r, x')
   | ADep => let (d, x') := s_dep b x in (oobs ODep d, x')
   | AFreeze => (OFrozen, s_freeze x)
+  | AWrite => let (w, x') := s_write b x in (oobs OWritten (option_map (fun evs => FText (file_of_events evs)) w), x')
   end.
 
 Fixpoint run (b : N) (accs : list access) (x : src) : list obs * src :=
@@ -880,6 +887,10 @@ Fixpoint subst_go (pat rep : text) (skip : nat) (s : text) : text :=
 Definition subst (pat rep : text) : text -> text := subst_go pat rep 0.
 
 (** External programs used by the correspondence cases (functions on the bytes of valid texts). *)
+(** a program source whose program prints the same for every run *)
+Definition det (g : raw -> raw) : nat -> raw -> raw := fun _ => g.
+(** ... and one that appends one more "x" for every run it has had before: cat F -; head -c $n XS *)
+Definition g_counting (out : raw) : nat -> raw -> raw := fun n r => out ++ r ++ repeat 120 n.
 Definition g_const (out : raw) : raw -> raw := fun _ => out.                         (* cat FILE, no stdin *)
 Definition g_prefix (out : raw) : raw -> raw := fun r => out ++ r.                   (* cat FILE - *)
 Definition g_cat : raw -> raw := fun r => r.                                         (* cat *)
